@@ -32,16 +32,16 @@ ION_KEYS = ["H+", "Li+", "Na+", "K+", "Rb+", "Cs+", "NH4+", "Mg+2", "Ca+2", "Ba+
 ERRS = [-2.0, -1.0, -0.5, 0.0, 0.5, 1.0, 2.0]      # multiples of the reported uncertainties (err_mult)
 GAS_KEYS = ["O2", "CO2", "N2O", "C2H2", "C2H4", "He", "Ne", "Ar", "Kr", "Xe", "Rn", "H2", "N2", "NO", "C2H6"]
 
-# order of the unit symbols in the generated unit-mode functions (first use in the source)
-UATTRS = {
-    'water_density': ['Kelvin', 'meter', 'kilogram'],
+# order of the unit symbols in the generated unit-mode functions
+UATTRS = {      # pyfn2lean sorts the `units.<attr>` arguments by attribute name
+    'water_density': ['Kelvin', 'kilogram', 'meter'],
     'water_viscosity': ['centipoise', 'kelvin'],
     'water_diffusivity': ['Kelvin', 'meter', 'second'],
-    'water_permittivity': ['kelvin', 'bar'],
-    'sulfuric_acid_density': ['Kelvin', 'meter', 'kilogram'],
+    'water_permittivity': ['bar', 'kelvin'],
+    'sulfuric_acid_density': ['Kelvin', 'kilogram', 'meter'],
     'henry_call': ['Kelvin'],
-    'nernst': ['coulomb', 'mol', 'joule', 'kelvin'],
-    'mobility': ['joule', 'kelvin', 'coulomb'],
+    'nernst': ['coulomb', 'joule', 'kelvin', 'mol'],
+    'mobility': ['coulomb', 'joule', 'kelvin'],
 }
 PLAIN_OP = {'water_density': 'water_density', 'water_viscosity': 'water_viscosity', 'water_diffusivity': 'water_diffusivity',
             'water_permittivity': 'water_permittivity', 'sulfuric_acid_density': 'sulfuric_acid_density'}
@@ -88,6 +88,26 @@ class C19(Property):
                    'documented validity ranges and anchor values embedded in Props/C19.lean and tools/harness/c19.py (from docstrings, tests, papers)',
                    'the translator pyfn2lean.py, the source normalisation in tools/extract/props.py (x *= e, local import of to_unitless)',
                    )
+    clauses_without_theorem = (
+        '"quantities expressed in any compatible units" in the sense of the third-party package `quantities`: universal theorems exist at the '
+        'scale-factor reading (L1) for every function and in the quantity algebra (L2) for nernst_potential (constants path), water_viscosity, '
+        'Henry_H_at_T (default T0) and the float(t_K) of sulfuric_acid_density; for water_density, diffusivity, permittivity, mobility, '
+        'lg_solubility_ratio, Henry with explicit T0 and nernst with a units object the L2 reading is decided by correspondence (ops *_u2) only',
+        'that the L2 algebra describes `quantities` (rescaling on +/-, "must be dimensionless", float(q) = raw magnitude, math.log(q)): correspondence only',
+        'anchor values of water_viscosity as VALUES (the theorem bounds the rational exponent; the conversion of the table to log10 bounds is '
+        'trusted arithmetic), of water_self_diffusion_coefficient (Holz: 2.299e-9 at 25 degC and the other 7 table values), water_permittivity '
+        '(78.38436874203077 at 25 degC 1 bar; 80.1 / 55.3), nernst_potential (60.605, -96.8196, 137.0436, -64.0567 mV), Henry (0.001421892; 1.05), '
+        'density_from_concentration (1021; 1058.5): irrational (exp / log / non-integer power) or iterative values - oracle on the real code only',
+        'water permittivity falls with temperature: proved at the reference pressure 1000 bar only; at the default pressure 1 bar and elsewhere oracle grid only',
+        'range warnings in unit mode for viscosity, diffusivity, permittivity, sulfuric acid (proved for water_density only; the others: correspondence of the '
+        'translated `...UWarns` predicates with the real warnings)',
+        'pressure warnings of water_permittivity (the property names temperature only; the coded pressure rule is mirrored, `P > 5000 bar` is unreachable)',
+        'density_from_concentration inverts the forward relation: proved as "a returned value is an atol-approximate fixed point" for an arbitrary callback; '
+        'that the iteration converges for sulfuric acid in the documented range is sampled (oracle), not proved',
+        'statelessness (a value does not depend on earlier calls: err_mult histories) and the option combinations constants x units x plain / same-prefix / '
+        'mixed-prefix quantities of nernst_potential and electrical_mobility_from_D: oracle / correspondence only (the model is a pure function by construction)',
+        'Henry / HenryWithUnits with units=None and quantity arguments, and density_from_concentration with units: oracle on default_units only, no model op',
+    )
     anchors = (('chempy/properties/sulfuric_acid_density_myhre_1998.py', 'sulfuric_acid_density'),
                ('chempy/properties/sulfuric_acid_density_myhre_1998.py', 'density_from_concentration'),
                ('chempy/properties/gas_sol_electrolytes_schumpe_1993.py', 'lg_solubility_ratio'),
@@ -238,7 +258,13 @@ class C19(Property):
                      'constants': rng.random() < 0.4}
                 if mode != 'plain':
                     c['usys'], c['T_unit'] = us, tunit(us)
-                    c['co_unit'], c['ci_unit'] = rng.choice(['M', 'mM', 'uM']), rng.choice(['M', 'mM', 'uM'])
+                    c['co_unit'] = rng.choice(['M', 'mM', 'uM'])
+                    c['ci_unit'] = c['co_unit'] if rng.random() < 0.35 else rng.choice(['M', 'mM', 'uM'])    # same / mixed prefixes
+                    # option combinations: (constants given / None) x (units given / None) x (plain / quantity inputs)
+                    if c['constants']:
+                        c['opts'] = rng.choice(['both', 'no_units'])
+                    else:
+                        c['opts'] = rng.choice(['both', 'both', 'conc_only'])     # conc_only: constants=None, units=None, T a plain number
                 add(c)
             elif r == 3:     # mobility
                 z = rng.choice([-3, -2, -1, 1, 2, 3])
@@ -247,6 +273,7 @@ class C19(Property):
                 if c['mode'] in ('u1', 'u2'):
                     c['usys'], c['T_unit'] = us, tunit(us)
                     c['D_unit'] = rng.choice(['m2/s', 'cm2/s'])
+                    c['opts'] = rng.choice(['both', 'no_units']) if c['constants'] else 'both'
                 add(c)
             elif r == 4:     # Schumpe
                 ne = rng.choice([0, 1, 2, 2, 3, 4])
@@ -372,6 +399,11 @@ class C19(Property):
                 co = self._q(c['co'] / (self.unit_info(U['units'][c['co_unit']])[0] / 1000.0), c['co_unit'])
                 ci = self._q(c['ci'] / (self.unit_info(U['units'][c['ci_unit']])[0] / self._ci_ref(c)), c['ci_unit'])
                 consts = U['dc'] if c['constants'] else None
+                opts = c.get('opts', 'both')
+                if opts == 'no_units':        # constants object given, `units` left at its default None
+                    return (lambda: nernst_potential(co, ci, c['z'], T, consts)), [co, ci, c['z'], T], uo
+                if opts == 'conc_only':       # only the concentrations are quantities
+                    return (lambda: nernst_potential(co, ci, c['z'], c['T'])), [co, ci, c['z'], c['T']], uo
                 return (lambda: nernst_potential(co, ci, c['z'], T, consts, uo)), [co, ci, c['z'], T], uo
             consts = types.SimpleNamespace(Faraday_constant=96485.3399, molar_gas_constant=8.314472) if c['constants'] else None
             return (lambda: nernst_potential(c['co'], c['ci'], c['z'], c['T'], consts)), [c['co'], c['ci'], c['z'], c['T']], None
@@ -380,6 +412,8 @@ class C19(Property):
             if unitful:
                 D = self._q(c['D'] / self.unit_info(U['units'][c['D_unit']])[0], c['D_unit'])
                 consts = U['dc'] if c['constants'] else None
+                if c.get('opts') == 'no_units':
+                    return (lambda: electrical_mobility_from_D(D, c['z'], T, consts)), [D, c['z'], T], uo
                 return (lambda: electrical_mobility_from_D(D, c['z'], T, consts, uo)), [D, c['z'], T], uo
             consts = types.SimpleNamespace(Boltzmann_constant=1.3806504e-23, elementary_charge=1.602176487e-19) if c['constants'] else None
             return (lambda: electrical_mobility_from_D(c['D'], c['z'], c['T'], consts)), [c['D'], c['z'], c['T']], None
@@ -476,6 +510,9 @@ class C19(Property):
                 mc.update(op='henry_call_u1', a=[f2b(si(T)), f2b(si(H)), f2b(si(Td)), f2b(self.unit_info(uo.Kelvin)[0])],
                           T0=None if T0 is None else f2b(si(T0)))
                 return mc
+            if fn == 'nernst' and c.get('opts') == 'conc_only':
+                mc.update(op='nernst_q1', a=[f2b(si(x)) for x in args])
+                return mc
             if fn == 'nernst' and c['constants']:
                 dc = U['dc']
                 mc.update(op='nernst_cu1', a=[f2b(si(x)) for x in args] + [f2b(si(dc.Faraday_constant)), f2b(si(dc.molar_gas_constant))])
@@ -495,6 +532,9 @@ class C19(Property):
                 mc.update(op='henry_default_u2', a=[self._uv(T), self._uv(H), self._uv(Td), self._uv(1 * uo.Kelvin)])
             else:
                 mc.update(op='henry_t0_u2', a=[self._uv(T), self._uv(H), self._uv(Td), self._uv(T0), self._uv(1 * uo.Kelvin)])
+            return mc
+        if fn == 'nernst' and c.get('opts') == 'conc_only':
+            mc.update(op='nernst_q2', a=[self._uv(x) for x in args])
             return mc
         if fn == 'nernst' and c['constants']:
             dc = U['dc']
@@ -720,7 +760,12 @@ class C19(Property):
         from chempy.units import to_unitless
         eu, _ = self._expected_unit(c, uo)
         try:
-            got = float(to_unitless(r[1], eu))
+            if c.get('opts') == 'conc_only':      # constants=None, units=None: the result is a plain number (volt)
+                if hasattr(r[1], 'dimensionality'):
+                    return '%s(quantity concentrations, plain T): result %r is not a plain number' % (fn, r[1])
+                got = float(r[1])
+            else:
+                got = float(to_unitless(r[1], eu))
         except Exception as e:
             return '%s with units: result %r does not have the dimension of %s (%s)' % (fn, r[1], eu, exc_name(e))
         want = float(p[1])
@@ -943,6 +988,10 @@ class C19(Property):
             s += ':T0=' + ('default' if c['Tref'] is None else '298.15' if c['Tref'] == 298.15 else 'other')
             if c.get('cls'):
                 s += ':' + c['cls']
+        if c.get('opts') in ('no_units', 'conc_only'):
+            s += ':' + c['opts']
+        if c['fn'] == 'nernst' and 'co_unit' in c:
+            s += ':same-prefix' if c['co_unit'] == c['ci_unit'] else ':mixed-prefix'
         if 'usys' in c:
             s += ':' + c['usys']
         if self.is_foreign(c):
